@@ -18,7 +18,11 @@ RULE_DP = ("DataParser documents: for every parser state reached on the implemen
            "chunks; one mutation of those (rename / delete / duplicate an element, attribute, broken number, truncation); "
            "distinct by SAX event text; non-trivial = at least 4 events; every document is ALSO run through DP.crun (the model on the "
            "real character data: text_buffer, number-format conditions computed): state / error kind after every event, acceptance "
-           "bit and line of the refusal must equal the implementation's (stream dp_values)")
+           "bit and line of the refusal must equal the implementation's (stream dp_values); 188 deterministic documents with two consecutive "
+           "field elements (every observation kind of gama-g3 after every other, the one-number constants, the ellipsoid pairs, every pooled "
+           "group of the adjustment input): well-formed after well-formed must be accepted, empty / malformed / missing / doubled numbers "
+           "after a well-formed element must be refused naming the line of the element's end tag (expectation from the documented format, "
+           "not from the model: a stale text_buffer or a skipped format test gives a concrete failing document)")
 
 _spec = importlib.util.spec_from_file_location("c11_dataparser_gen", str(VERIF / "tools" / "gen" / "c11_dataparser.py"))
 _tr = importlib.util.module_from_spec(_spec)
@@ -80,6 +84,8 @@ def run_docs(ctx, corr, exe, docs, stream, quiet=False):
         corr.case(key=key, sample={"stream": stream, "doc": label, "events": nev, "outcome": O[:1]} if i < 2 else None)
         corr.count(f"{stream}_docs")
         payload = {"stream": stream, "label": label, "doc": d.decode("utf-8", "replace"), "split": k}
+        if expect is not None:
+            payload["expect"] = list(expect) if isinstance(expect, tuple) else expect
         if i in crashes:
             if _is_wall_timeout(crashes[i]):
                 _wall_inconclusive(corr, f"DataParser stream batch starting at {label}")
@@ -153,8 +159,20 @@ def run_docs(ctx, corr, exe, docs, stream, quiet=False):
         if O[0] == "O ok" and M:
             corr.fail(f"DataParser: error() was recorded but the document was accepted (error lost) : {label}", payload,
                       "DataParser::init", "\n".join(M + R[-6:]))
-        if expect == "accept" and O[0] != "O ok":
+        if expect == "accept" and label.startswith("stale-buffer"):
+            corr.count("dp_stale_buffer_expect_accept")
+            if O[0] != "O ok":
+                corr.fail(f"a well-formed element that follows a well-formed element is refused ({O[0]}; text_buffer not cleared?) : {label}",
+                          payload, "DataParser::text_buffer", "\n".join(M + out[-4:]))
+        elif expect == "accept" and O[0] != "O ok":
             corr.fail(f"DataParser refuses an archived gama-g3 input ({O[0]}) : {label}", payload, "DataParser", "\n".join(out[-4:]))
+        if isinstance(expect, tuple) and expect[0] == "refuse_at":
+            corr.count("dp_stale_buffer_expect_refusal")
+            t = O[0].split()
+            if not (t[1] == "parser" and int(t[2]) == expect[1]):
+                corr.fail(f"an element with empty / malformed mandatory numbers must be refused naming line {expect[1]} (its end tag) but the answer is "
+                          f"{O[0]} (text of the preceding element still in text_buffer, or the format test skipped?) : {label}",
+                          payload, "DataParser::pure_data", "\n".join(M + out[-4:]))
         if isinstance(expect, tuple) and expect[0] == "refuse_between":
             corr.count("dp_numeric_leaf_docs")
             t = O[0].split()
@@ -414,6 +432,137 @@ def numeric_leaf_docs(ctx, corr, rng, files):
     return out
 
 
+# ------------------------------------------------------------------ consecutive field elements: a stale text_buffer
+
+# The elements whose character data (own or pooled from their children) is read by ONE end handler (the `isField` handlers of
+# Gen/DataParserConds.lean and the pooling parents).  The expectations below come from the documented format of the gama-g3 /
+# adjustment input (manual "gama-g3 input data", xml/gnu-gama-data.xsd), NOT from the model: every child of an observation is
+# mandatory and holds one number / one id, so
+#   * a well-formed element that FOLLOWS a well-formed element must be accepted,
+#   * an element whose mandatory children are empty (or whose last number is malformed) must be refused, and the diagnostic must
+#     name the line of ITS end tag (the handler that reads the pooled text runs there) — whatever element precedes it.
+# A handler that does not clear text_buffer leaks the first element's text into the second: both expectations break.
+G3_HEAD = (b'<?xml version="1.0" ?>\n<gnu-gama-data xmlns="http://www.gnu.org/software/gama/gnu-gama-data">\n<g3-model>\n'
+           b'<constants>\n<apriori-standard-deviation>10</apriori-standard-deviation>\n<angular-units-gons/>\n'
+           b'<ellipsoid><id>wgs84</id></ellipsoid>\n</constants>\n<fixed><n/><e/><u/></fixed>\n'
+           b'<point><id>A</id><x>3897173.613</x><y>997293.454</y><z>4933466.708</z></point>\n'
+           b'<point><id>B</id><x>3905644.621</x><y>1024368.968</y><z>4921493.098</z></point>\n'
+           b'<point><id>C</id><x>3895644.621</x><y>1014368.968</y><z>4931493.098</z></point>\n')
+G3_TAIL = b'</g3-model>\n</gnu-gama-data>\n'
+# kind -> (children in the mandatory order, values of a first and a second well-formed instance, number of scalar observations)
+G3_OBS_KINDS = {
+    "distance": (["from", "to", "val"], ["A", "B", "29655.5"], ["B", "C", "14432.25"], 1),
+    "zenith": (["from", "to", "val"], ["A", "B", "100.5"], ["B", "C", "99.25"], 1),
+    "azimuth": (["from", "to", "val"], ["A", "B", "71.5"], ["B", "C", "350.25"], 1),
+    "vector": (["from", "to", "dx", "dy", "dz"], ["A", "B", "8471.008", "27075.514", "-11973.61"], ["B", "C", "-10000", "-10000", "10000"], 3),
+    "xyz": (["id", "x", "y", "z"], ["A", "3897173.613", "997293.454", "4933466.708"], ["B", "3905644.621", "1024368.968", "4921493.098"], 3),
+    "hdiff": (["from", "to", "val"], ["A", "B", "12.345"], ["B", "C", "-7.5"], 1),
+    "height": (["id", "val"], ["A", "301.5"], ["B", "288.25"], 1),
+    "angle": (["from", "left", "right", "val"], ["A", "B", "C", "33.5"], ["B", "C", "A", "66.25"], 1),
+}
+
+
+# <azimuth> is read but `g3_obs` has no branch for it ("INTERNAL ERROR" at </obs>): no document with an azimuth is expected to be accepted
+G3_NOT_ADJUSTABLE = {"azimuth"}
+# the value of an angle is extracted as a WORD at the end tag of the observation and converted (deg2gon / atof) at </obs>: a malformed
+# angle is not refused at the element (corpus/C11/g3-nonnumeric-value-accepted.xml, recorded laxness); empty / missing / doubled still are
+G3_ANGLE_AS_WORD = {"zenith", "azimuth", "angle"}
+
+
+def _g3_elem(kind, vals):
+    ch, _a, _b, _n = G3_OBS_KINDS[kind]
+    return ("<" + kind + ">" + "".join(f"<{c}>{v}</{c}>" for c, v in zip(ch, vals)) + "</" + kind + ">").encode()
+
+
+def _g3_obs_doc(elems):
+    """(document, [line of the end tag of every element]) : one <obs> holding the elements (each on a line of its own) and a
+    diagonal covariance matrix of the right dimension"""
+    head_lines = G3_HEAD.count(b"\n")
+    body = b"<obs>\n"
+    lines = []
+    dim = 0
+    for kind, vals in elems:
+        body += _g3_elem(kind, vals) + b"\n"
+        lines.append(head_lines + 1 + len(lines) + 1)
+        dim += G3_OBS_KINDS[kind][3]
+    body += b"<cov-mat><dim>" + str(dim).encode() + b"</dim><band>0</band>" + b"".join(b"<flt>%d</flt>" % (4 + i) for i in range(dim)) + b"</cov-mat>\n</obs>\n"
+    return G3_HEAD + body + G3_TAIL, lines
+
+
+def stale_buffer_docs():
+    """deterministic documents with two consecutive field elements -> (label, bytes, -1, expect), expect = "accept" or
+    ("refuse_at", line).  Independent of the translator (they are also run when it raised TieBroken)."""
+    out = []
+    kinds = list(G3_OBS_KINDS)
+    for k1 in kinds:
+        ch1, a1, b1, _ = G3_OBS_KINDS[k1]
+        # a single element, then the covariance matrix (which reads text_buffer too)
+        d, _ = _g3_obs_doc([(k1, a1)])
+        if k1 not in G3_NOT_ADJUSTABLE:
+            out.append((f"stale-buffer: <{k1}> then <cov-mat>", d, -1, "accept"))
+        for k2 in kinds:
+            ch2, a2, b2, _ = G3_OBS_KINDS[k2]
+            if k1 in G3_NOT_ADJUSTABLE or k2 in G3_NOT_ADJUSTABLE:
+                continue
+            d, _ = _g3_obs_doc([(k1, a1), (k2, b2)])
+            out.append((f"stale-buffer: well-formed <{k1}> then well-formed <{k2}>", d, -1, "accept"))
+        # second element of the same / of another kind with EMPTY mandatory children, with a malformed last number, with a missing last number
+        for k2 in (k1, kinds[(kinds.index(k1) + 1) % len(kinds)]):
+            ch2, a2, b2, _ = G3_OBS_KINDS[k2]
+            for what, vals in (("all children empty", [""] * len(ch2)), ("last number malformed", b2[:-1] + ["1x"]),
+                               ("last number missing", b2[:-1] + [""]), ("last number doubled", b2[:-1] + [b2[-1] + " 5"])):
+                if k2 in G3_ANGLE_AS_WORD and what == "last number malformed":
+                    continue
+                d, ln = _g3_obs_doc([(k1, a1), (k2, vals)])
+                out.append((f"stale-buffer: well-formed <{k1}> then <{k2}> with {what}", d, -1, ("refuse_at", ln[1])))
+    # <constants>: elements holding one number each, repeated; the ellipsoid given by a / b resp. a / inv-f (two children pooled)
+    def const_doc(inner):
+        head = (b'<?xml version="1.0" ?>\n<gnu-gama-data xmlns="http://www.gnu.org/software/gama/gnu-gama-data">\n<g3-model>\n<constants>\n')
+        tail = b"</constants>\n" + G3_TAIL
+        return head + b"".join(x + b"\n" for x in inner) + tail, 4
+    singles = ["apriori-standard-deviation", "confidence-level", "tol-abs"]
+    goods = {"apriori-standard-deviation": ("10", "12.5"), "confidence-level": ("0.95", "0.99"), "tol-abs": ("1e-3", "0.002")}
+    for k1 in singles:
+        for k2 in singles:
+            e1 = f"<{k1}>{goods[k1][0]}</{k1}>".encode()
+            d, l0 = const_doc([e1, f"<{k2}>{goods[k2][1]}</{k2}>".encode()])
+            out.append((f"stale-buffer: <{k1}> then well-formed <{k2}>", d, -1, "accept"))
+            for what, v in (("empty", ""), ("malformed", "1x"), ("two numbers", goods[k2][1] + " 7")):
+                d, l0 = const_doc([e1, f"<{k2}>{v}</{k2}>".encode()])
+                out.append((f"stale-buffer: <{k1}> then <{k2}> {what}", d, -1, ("refuse_at", l0 + 2)))
+    for second in ("b", "inv-f"):
+        v2 = {"b": "6356752.31425", "inv-f": "298.257223563"}[second]
+        for k1 in singles:
+            e1 = f"<{k1}>{goods[k1][0]}</{k1}>".encode()
+            d, l0 = const_doc([e1, f"<ellipsoid><a>6378137</a><{second}>{v2}</{second}></ellipsoid>".encode(), e1])
+            out.append((f"stale-buffer: <{k1}> then <ellipsoid> a/{second} then <{k1}>", d, -1, "accept"))
+            for what, va, vb in (("both empty", "", ""), ("second empty", "6378137", ""), ("second malformed", "6378137", "1x")):
+                d, l0 = const_doc([e1, f"<ellipsoid><a>{va}</a><{second}>{vb}</{second}></ellipsoid>".encode()])
+                out.append((f"stale-buffer: <{k1}> then <ellipsoid> a/{second} {what}", d, -1, ("refuse_at", l0 + 2)))
+    # adjustment input: <rows>/<cols>/<nonz> pooled, <row><nonz>, <blocks>/<nonz> pooled, <dim>/<width> pooled, <dim> of vector / array
+    def adj_doc(sm=("2", "2", "3"), r1="2", r2="1", bd=("1", "3"), bw=("2", "1"), vdim="2", adim="2"):
+        L = [b'<?xml version="1.0" ?>', b"<gnu-gama-data>", b"<adj-input-data>",
+             b"<sparse-mat>", f"<rows>{sm[0]}</rows><cols>{sm[1]}</cols><nonz>{sm[2]}</nonz>".encode(),
+             b"<row>", f"<nonz>{r1}</nonz>".encode(), b"<int>1</int><flt>1</flt><int>2</int><flt>2</flt></row>",
+             b"<row>", f"<nonz>{r2}</nonz>".encode(), b"<int>2</int><flt>3</flt></row>", b"</sparse-mat>",
+             b"<block-diagonal>", f"<blocks>{bd[0]}</blocks><nonz>{bd[1]}</nonz>".encode(),
+             b"<block>", f"<dim>{bw[0]}</dim><width>{bw[1]}</width>".encode(), b"<flt>4</flt><flt>1</flt><flt>5</flt></block>", b"</block-diagonal>",
+             b"<vector>", f"<dim>{vdim}</dim>".encode(), b"<flt>1</flt><flt>2</flt></vector>",
+             b"<array>", f"<dim>{adim}</dim>".encode(), b"<int>1</int><int>2</int></array>",
+             b"</adj-input-data>", b"</gnu-gama-data>"]
+        return b"\n".join(L) + b"\n"
+    out.append(("stale-buffer: adjustment input, every field element followed by another", adj_doc(), -1, "accept"))
+    for what, kw, line in (("<rows>/<cols>/<nonz> empty", dict(sm=("", "", "")), 5), ("<nonz> of sparse-mat malformed", dict(sm=("2", "2", "3x")), 5),
+                           ("<nonz> of the first row empty", dict(r1=""), 7), ("<nonz> of the second row empty", dict(r2=""), 10),
+                           ("<nonz> of the second row malformed", dict(r2="1x"), 10),
+                           ("<blocks>/<nonz> empty", dict(bd=("", "")), 14), ("<nonz> of block-diagonal malformed", dict(bd=("1", "3x")), 14),
+                           ("<dim>/<width> empty", dict(bw=("", "")), 16), ("<width> malformed", dict(bw=("2", "1x")), 16),
+                           ("<dim> of vector empty", dict(vdim=""), 20), ("<dim> of vector malformed", dict(vdim="2x"), 20),
+                           ("<dim> of array empty", dict(adim=""), 23), ("<dim> of array malformed", dict(adim="2x"), 23)):
+        out.append((f"stale-buffer: adjustment input, {what}", adj_doc(**kw), -1, ("refuse_at", line)))
+    return out
+
+
 PD_ALPHABET = b"019+-.eE x"
 
 
@@ -474,6 +623,41 @@ def run_pure_data(ctx, corr, exe):
     corr.count("pure_data_accepted", nacc)
     return len(ops)
 
+# ------------------------------------------------------------------ replay of one recorded document on the real DataParser
+
+def replay_doc(ctx, inp):
+    """re-run a recorded document (payload of a dp_events / dp_values failure) on the DataParser of the current tree: prints the
+    outcome, re-evaluates the recorded expectation; 1 = still failing"""
+    d = ctx.build_gama(sanitize=True)
+    objs = sorted(_glob.glob(str(d / "CMakeFiles" / "libgama.dir" / "**" / "*.o"), recursive=True))
+    exe = ctx.build_cpp("c11_dataparser", [ctx.verif / "harness" / "c11_dataparser.cpp"], includes=[ctx.verif / "harness"],
+                        libs=objs + ["-lexpat"])
+    data = inp["doc"].encode()
+    impl, crashes = run_cases(exe, [[f"doc {hexs(data)} {inp.get('split', -1)}"]], timeout=600)
+    out = impl[0] if impl else []
+    O = [l for l in out if l.startswith("O ")]
+    M = [l for l in out if l.startswith("M ")]
+    print(f"DataParser on {len(data)} bytes ({inp.get('label')})")
+    print("\n".join(M + O))
+    if 0 in crashes:
+        print(crashes[0][1][-1500:])
+        return 1
+    if not O:
+        return 1
+    expect = inp.get("expect")
+    t = O[0].split()
+    if expect == "accept":
+        bad = O[0] != "O ok"
+    elif isinstance(expect, list) and expect and expect[0] == "refuse_at":
+        bad = not (t[1] == "parser" and int(t[2]) == expect[1])
+    elif isinstance(expect, list) and expect and expect[0] == "refuse_between":
+        bad = not (t[1] == "parser" and expect[1] <= int(t[2]) <= expect[2])
+    else:
+        bad = (t[1] == "parser" and int(t[2]) < 1) or (O[0] == "O ok" and bool(M))
+    print("expectation:", expect, "->", "VIOLATED" if bad else "met")
+    return 1 if bad else 0
+
+
 # ------------------------------------------------------------------ the stream
 
 def run_stream(ctx, corr):
@@ -503,6 +687,7 @@ def run_stream(ctx, corr):
         # the numeric-leaf oracle does not need the translator: a broken tie still gets its failing input
         files0 = sorted(_glob.glob(str(ctx.repo / "tests" / "gama-g3" / "input" / "*.xml")))
         docs += numeric_leaf_docs(ctx, corr, rng, [f for f in files0 if not f.endswith("-adj.xml")])
+        docs += stale_buffer_docs()
         run_docs(ctx, corr, exe, docs, "dp_events")
         return
     reached, names = explore_cached(ctx, corr, exe, A)
@@ -536,6 +721,7 @@ def run_stream(ctx, corr):
     g3inputs = [f for f in files if not f.endswith("-adj.xml")]
     nd = numeric_leaf_docs(ctx, corr, rng, g3inputs)
     docs += nd
+    docs += stale_buffer_docs()
     run_docs(ctx, corr, exe, docs, "dp_events")
     npd = run_pure_data(ctx, corr, exe)
     ctx.log(f"DataParser numeric elements: {len(nd)} documents with a non-number in a numeric leaf, {npd} strings through pure_data")
